@@ -37,6 +37,12 @@ def generate(gen, tier):
         inplace = rng.random() < 0.3
         fid = rng.choice([0, 1, 1, 2, 3, 4])
         lines = [op('map', A(variant), A('1' if inplace else '0'), cfg, fid, t, *rests)]
+        # the other variants on the same arguments (same calls, same result or the original tree), and tree_replace_nones
+        others = [(v, ip) for v in ('plain', 'path', 'acc') for ip in (False, True) if (v, ip) != (variant, inplace)]
+        for v, ip in rng.sample(others, 3):
+            lines.append(op('map', A(v), A('1' if ip else '0'), cfg, rng.choice([0, 1, 2, 7, 9]), t, *rests))
+        if not rests:
+            lines.append(op('replace_nones', cfg, t))
         cases.append({'lines': lines, 'o': {'cfg': render(cfg), 'tree': render(t), 'rests': [render(r) for r in rests],
                                             'near': bad}})
     return cases
